@@ -147,7 +147,7 @@ def run(tier):
     n_fixed = len(plans)
     # the same structures over other boundary alphabets, started from a non-empty, churned heap
     rng = A.rng_for(chk, "c03")
-    n_rot = 1200 if quick else 5000
+    n_rot = 1000 if quick else 5000
     for i in range(n_rot):
         h = hists[rng.randrange(len(hists))]
         al, rs = random_alphabet(rng, k, nalloc, nresize, big_ok=(i % 4 == 0))
@@ -188,24 +188,34 @@ def run(tier):
             plans.append({"kind": "hist", "slots": nslots, "ops": ops, "os": rng.choice("bad"), "refuse_each": True,
                           "classes": classes, "src": "refuse-every-position"})
 
+    # real-OS runs: no hook table, the raw mmap/mremap/munmap wrappers of dlmalloc.rs run against
+    # the real kernel (own driver process without arena reservation); Accessible is not judged
+    # there, a fault of the recorder on a block is a crash event
+    real_plans = [{"kind": "hist", "slots": nslots, "ops": A.bind_history(h, allocs, resizes), "real": True, "src": "real-os"}
+                  for h in fixed[:(len(fixed) if quick else 4000)]]
+    for i in range(40 if quick else 300):
+        real_plans.append({"kind": "rand", "seed": rng.randrange(1, 1 << 40), "n": 300, "slots": rng.choice([8, 24]),
+                           "max": rng.choice([2048, 300000, 3 << 20]), "max_live": 16 << 20, "classes": classes,
+                           "aligns": A.ALIGNS, "real": True, "src": "real-os-random"})
     # debug build (internal assertions on): everything; release build: the sampled parts
     # (re-bound sequences, refusal at every position, random histories).  Plans are processed in
     # chunks so that memory stays bounded in the thorough tier.
     rel_fixed = []
     jobs = [("debug", bin_dbg, plans + rand_plans), ("release", bin_rel, rel_fixed + plans[n_fixed:] + rand_plans)]
     CH = 6000
-    work = [(build, bindir, pl[i:i + CH], i) for build, bindir, pl in jobs for i in range(0, len(pl), CH)]
+    work = [(build, bindir, pl[i:i + CH], i, False) for build, bindir, pl in jobs for i in range(0, len(pl), CH)]
+    work += [("debug-realos", bin_dbg, real_plans, 0, True), ("release-realos", bin_rel, real_plans, 0, True)]
     nontrivial = set()
     first_runs = []
     stats = {"runs": 0, "events": 0, "ops": 0, "os_requests": 0, "refusals": 0, "null_results": 0, "panics": 0,
-             "crashes": 0, "unmaps": 0}
+             "crashes": 0, "unmaps": 0, "real_os_runs": 0, "real_os_runs_skipped": 0}
     t0 = time.time()
-    nxt = pool.submit(A.run_driver, chk, work[0][1], work[0][2], "%s_%d" % (work[0][0], work[0][3])) if work else None
-    for wi, (build, bindir, pl, off) in enumerate(work):
+    nxt = pool.submit(A.run_driver, chk, work[0][1], work[0][2], "%s_%d" % (work[0][0], work[0][3]), 1800, work[0][4]) if work else None
+    for wi, (build, bindir, pl, off, real) in enumerate(work):
         events, crashes = nxt.result()
         if wi + 1 < len(work):
             w2 = work[wi + 1]
-            nxt = pool.submit(A.run_driver, chk, w2[1], w2[2], "%s_%d" % (w2[0], w2[3]))
+            nxt = pool.submit(A.run_driver, chk, w2[1], w2[2], "%s_%d" % (w2[0], w2[3]), 1800, w2[4])
         t1 = time.time()
         runs, bad = A.judge(chk, events, "%s_%d" % (build, off), procs=6)
         core.log("%s build, plans %d..%d: driver done at +%.1fs (%d events), TLC judge %.1fs" % (
@@ -217,6 +227,9 @@ def run(tier):
         stats["crashes"] += len(crashes)
         stats["runs"] += len(runs)
         stats["events"] += len(events)
+        if real:
+            stats["real_os_runs"] += len(runs)
+            stats["real_os_runs_skipped"] += sum(1 for r in runs if any(e["ev"] == "skip" for e in r))
         for r in runs:
             nlive = 0
             maxlive = 0
@@ -285,6 +298,7 @@ def run(tier):
                 "allocation after a free" % ("12" if quick else "16", len(hists), depth, nalloc, nresize, len(fixed), fixed_depth, n_rot, n_rand))
     chk.assumptions = [
         "simulated OS: mmap/mremap/munmap served from a 1 GiB arena with placement below/above/disjoint/refuse; mremap never moves",
+        "real-OS runs (raw syscall wrappers of dlmalloc.rs against the real kernel): offsets relative to a 1 GiB window around the first pointer, a run whose mappings leave the window is skipped (counted); Accessible and the C04 bounds are not judged there",
         "64-bit target only; request sizes: size-class boundaries of dlmalloc.rs (1 B .. 32 MiB+1) x alignments 1..8192, not every size",
         "content: owner pattern of every live block re-read around every call (all bytes while <= 512 KiB are live, ends+probes of big blocks beyond; every byte of a block when it is reallocated or freed and at the end of a run)",
         "null without an OS refusal is accepted only for requests >= 256 MiB",
